@@ -369,8 +369,12 @@ func scenarioC12(c *hlib.RunCtx) *hlib.Violation {
 		if body == nil {
 			body, _ = json.Marshal(r)
 			if len(body) > 2 && body[0] == '{' && t.Bool(1, 6) {
-				decorated = 1 + t.Draw(3)
+				decorated = 1 + t.Draw(5)
 				switch decorated {
+				case 4: // the value is small and complete, the body is over the limit
+					body = append(body, []byte(strings.Repeat(" \n", maxRequestBytes/2+10))...)
+				case 5: // the same with the padding in front
+					body = append([]byte(strings.Repeat("\n ", maxRequestBytes/2+10)), body...)
 				case 1:
 					body = []byte(`{"Hostname":"build-17","Cwd":"/home/u",` + string(body[1:]))
 					body = []byte(strings.Replace(string(body), `"Programs":[{`, `"Programs":[{"Path":"/usr/local/bin/x",`, 1))
@@ -428,6 +432,9 @@ func scenarioC12(c *hlib.RunCtx) *hlib.Violation {
 		switch streamFault {
 		case 1:
 			fr.chunk = 1 + t.Draw(7)
+			if len(body) > 16<<10 {
+				fr.chunk *= 512 // short reads of a few bytes over a 100 KiB body cost more than they find
+			}
 		case 2:
 			if len(body) > 1 {
 				fr.cutAt = t.Draw(len(body))
